@@ -468,6 +468,10 @@ add("C19", "fixed", "global-not-reported:in-partial", "an extends (or include) i
     [{"kind": "matrix", "main": "{% for x in xs %}{% render 'child' %}{% endfor %}|{% render 'child' %}", "partials": {"child": "{% extends 'base' %}{% block b %}!{% endblock %}", "base": "<{{ x }}{% block b %}{% endblock %}>"},
       "datas": [V.enc({"xs": [1, 2], "x": "GX"})], "async": False, "async_analysis": False}], "5156a88")
 
+add("C27", "fixed", "macro:arguments-without-commas", "{% call f 1 2 %} and {% call f a: 1 b: 2 %} (no comma between the arguments) bound the first argument and silently dropped the rest, in strict mode too; "
+    "left-over tokens are now a syntax error",
+    [{"kind": "macro", "params": ["none", "none"], "npos": 2, "kws": [], "call_comma": False, "async": False}], "7843a2f")
+
 if __name__ == "__main__":
     # further entries are appended by tools/mkfindings.py from triaged replay files and kept in findings_extra.json
     extra_path = os.path.join(VERIF, "tools", "findings_extra.json")
